@@ -127,6 +127,7 @@ type bmc struct {
 	allStored bool
 	fuse      map[*bNode]bool
 	constLoad map[*bNode]bool
+	constVal  map[string]int64
 	starts    map[*bNode]bool
 }
 
@@ -149,6 +150,10 @@ type bState struct {
 }
 
 func (b *bmc) c(v int) *smt.Term { return smt.BVC(regW, uint64(v)) }
+
+const pcW = 12
+
+func (b *bmc) pcc(v int) *smt.Term { return smt.BVC(pcW, uint64(v)) }
 
 func (b *bmc) freshVar(name string, s smt.Sort) *smt.Term {
 	b.nfresh++
@@ -283,9 +288,12 @@ func RunBMC(meta *Tracer, traces [][][]TraceEvent, solverBin string, timeoutMs i
 		}
 	}
 	K := 0
+	minK := 0
 	for _, th := range b.threads {
 		K += b.stepDepth(th)
+		minK += b.minStepDepth(th)
 	}
+	_ = minK
 	res.Steps = K
 
 	// initial state
@@ -293,7 +301,7 @@ func RunBMC(meta *Tracer, traces [][][]TraceEvent, solverBin string, timeoutMs i
 	for i, th := range b.threads {
 		_ = th
 		if i == 0 || true {
-			st.pc = append(st.pc, b.c(1))
+			st.pc = append(st.pc, b.pcc(1))
 		}
 	}
 	for _, r := range regs {
@@ -340,8 +348,8 @@ func RunBMC(meta *Tracer, traces [][][]TraceEvent, solverBin string, timeoutMs i
 	st.bad = smt.False
 	for _, th := range b.threads {
 		for _, n := range th.nodes {
-			if b.constLoad[n] && int(n.ev.Obj.C) < len(meta.Cells) {
-				st.reg[n.ev.Res[0].Name] = smt.BVC(n.ev.Res[0].S.W, uint64(meta.Cells[n.ev.Obj.C]))
+			if b.constLoad[n] {
+				st.reg[n.ev.Res[0].Name] = smt.BVC(n.ev.Res[0].S.W, uint64(b.constVal[n.ev.Res[0].Name]))
 			}
 		}
 	}
@@ -366,6 +374,7 @@ func RunBMC(meta *Tracer, traces [][][]TraceEvent, solverBin string, timeoutMs i
 	type stepInfo struct {
 		sched *smt.Term
 		pcs   []*smt.Term
+		dbg   []*smt.Term
 	}
 	var steps []stepInfo
 	raceAny := smt.False
@@ -374,10 +383,16 @@ func RunBMC(meta *Tracer, traces [][][]TraceEvent, solverBin string, timeoutMs i
 
 	for t := 0; t < K; t++ {
 		sched := b.freshVar(fmt.Sprintf("sched_%d", t), smt.BV(regW))
-		steps = append(steps, stepInfo{sched: sched, pcs: append([]*smt.Term(nil), st.pc...)})
+		var dbg []*smt.Term
+		if os.Getenv("VF_BMC_DEBUG") != "" {
+			dbg = append(dbg, st.slen...)
+			dbg = append(dbg, st.cnt...)
+			dbg = append(dbg, st.bad)
+		}
+		steps = append(steps, stepInfo{sched: sched, pcs: append([]*smt.Term(nil), st.pc...), dbg: dbg})
 		assert(smt.ULt(sched, b.c(T)))
 		next, anyEnabled := b.step(st, sched, t, &nTrans)
-		if t >= 3 {
+		if t >= 3 && t >= minK {
 			// completeness threshold: if no execution can still move at time t, the unrolling is complete
 			s.Send("(push 1)\n")
 			r := b.pr.Ref(anyEnabled)
@@ -413,7 +428,7 @@ func RunBMC(meta *Tracer, traces [][][]TraceEvent, solverBin string, timeoutMs i
 
 	allDone := smt.True
 	for i := range b.threads {
-		allDone = smt.And(allDone, smt.Eq(st.pc[i], b.c(0)))
+		allDone = smt.And(allDone, smt.Eq(st.pc[i], b.pcc(0)))
 	}
 	query := func(name string, cond *smt.Term) (smt.Result, []int) {
 		s.Send("(push 1)\n")
@@ -437,6 +452,11 @@ func RunBMC(meta *Tracer, traces [][][]TraceEvent, solverBin string, timeoutMs i
 						refs = append(refs, b.pr.Ref(pc))
 					}
 				}
+				for _, d := range si.dbg {
+					if !d.IsConst() {
+						refs = append(refs, b.pr.Ref(d))
+					}
+				}
 			}
 			vals, err := s.GetValues(dedup(refs))
 			if err == nil {
@@ -457,7 +477,15 @@ func RunBMC(meta *Tracer, traces [][][]TraceEvent, solverBin string, timeoutMs i
 					} else if pcv == 0 {
 						desc = "(finished)"
 					}
-					res.TraceText = append(res.TraceText, fmt.Sprintf("t%d: T%d %s", len(sch)-1, th, desc))
+					dbgs := ""
+					for _, d := range si.dbg {
+						if d.IsConst() {
+							dbgs += fmt.Sprintf(" %d", d.C)
+						} else {
+							dbgs += fmt.Sprintf(" %d", vals[b.pr.Ref(d)])
+						}
+					}
+					res.TraceText = append(res.TraceText, fmt.Sprintf("t%d: T%d %s%s", len(sch)-1, th, desc, dbgs))
 				}
 			}
 		}
@@ -612,7 +640,7 @@ func (b *bmc) enabled(st *bState, n *bNode, memo map[*smt.Term]*smt.Term) *smt.T
 	case "waitall":
 		r := smt.True
 		for i := 1; i < len(st.pc); i++ {
-			r = smt.And(r, smt.Eq(st.pc[i], b.c(0)))
+			r = smt.And(r, smt.Eq(st.pc[i], b.pcc(0)))
 		}
 		return r
 	}
@@ -661,6 +689,62 @@ func (b *bmc) classify() {
 		}
 		return "", false
 	}
+	// phase 1: loads of cells that nobody stores
+	for _, th := range b.threads {
+		for _, n := range th.nodes {
+			if n.ev.Kind == "load" && n.ev.Obj.IsConst() && !b.stored[n.ev.Obj.C] && !b.allStored {
+				b.fuse[n] = true
+				b.constLoad[n] = true
+			}
+		}
+	}
+	// a register can be folded to a constant only if every node that defines it is such a load of
+	// the same content (register names are positional: branches may reuse a name for another event)
+	b.constVal = map[string]int64{}
+	{
+		badName := map[string]bool{}
+		for _, th := range b.threads {
+			for _, n := range th.nodes {
+				for _, r := range n.ev.Res {
+					if b.constLoad[n] && int(n.ev.Obj.C) < len(b.meta.Cells) {
+						v := b.meta.Cells[n.ev.Obj.C]
+						if old, ok := b.constVal[r.Name]; ok && old != v {
+							badName[r.Name] = true
+						}
+						b.constVal[r.Name] = v
+					} else {
+						badName[r.Name] = true
+					}
+				}
+			}
+		}
+		for k := range badName {
+			delete(b.constVal, k)
+		}
+		for _, th := range b.threads {
+			for _, n := range th.nodes {
+				if b.constLoad[n] {
+					if _, ok := b.constVal[n.ev.Res[0].Name]; !ok {
+						b.constLoad[n] = false // still invisible, but read from the cell when executed
+					}
+				}
+			}
+		}
+	}
+	resolve := func(t *smt.Term) (uint64, bool) {
+		if t == nil {
+			return 0, false
+		}
+		if t.IsConst() {
+			return t.C, true
+		}
+		if t.Op == "var" {
+			if v, ok := b.constVal[t.Name]; ok {
+				return uint64(v), true
+			}
+		}
+		return 0, false
+	}
 	for i, th := range b.threads {
 		for _, n := range th.nodes {
 			switch n.ev.Kind {
@@ -668,9 +752,7 @@ func (b *bmc) classify() {
 				b.fuse[n] = true
 				continue
 			case "load":
-				if n.ev.Obj.IsConst() && !b.stored[n.ev.Obj.C] && !b.allStored {
-					b.fuse[n] = true // constant cell
-					b.constLoad[n] = true
+				if b.fuse[n] {
 					continue
 				}
 			}
@@ -688,8 +770,10 @@ func (b *bmc) classify() {
 					if !ok2 || c2 != cls {
 						continue
 					}
-					if cls == "cell" && n.ev.Obj.IsConst() && m.ev.Obj.IsConst() && n.ev.Obj.C != m.ev.Obj.C {
-						continue // different cells
+					if a, ok1 := resolve(n.ev.Obj); ok1 {
+						if c, ok2 := resolve(m.ev.Obj); ok2 && a != c {
+							continue // provably different objects
+						}
 					}
 					if !lockCommon(n, m) {
 						protected = false
@@ -721,6 +805,47 @@ func (b *bmc) firstVisible(n *bNode) *bNode {
 		cur = cur.children[0].to
 	}
 	return cur
+}
+
+// minStepDepth counts the steps along the shortest complete path of a thread (paths that end in a
+// cut-off or a panic do not count).
+func (b *bmc) minStepDepth(th *bThread) int {
+	const inf = 1 << 30
+	var rec func(n *bNode, inPrefix bool) int
+	rec = func(n *bNode, inPrefix bool) int {
+		if len(n.children) == 0 {
+			if n.ev.Kind == "done" {
+				return 0
+			}
+			return inf
+		}
+		best := inf
+		nv := inPrefix && !b.vis(n)
+		for _, c := range n.children {
+			d := 0
+			if b.fuse[c.to] || nv {
+				d = rec(c.to, nv)
+			} else {
+				d = rec(c.to, b.firstVisible(c.to) != nil && !b.vis(c.to))
+				if d < inf {
+					d++
+				}
+			}
+			if d < best {
+				best = d
+			}
+		}
+		return best
+	}
+	if len(th.nodes) == 0 {
+		return 0
+	}
+	e := th.nodes[0]
+	d := rec(e, b.firstVisible(e) != nil && !b.vis(e))
+	if d >= inf {
+		return 0
+	}
+	return 1 + d
 }
 
 // stepDepth counts the steps along the longest path of a thread.
@@ -948,7 +1073,7 @@ func (b *bmc) run(st *bState, i int, n *bNode, g *smt.Term, t int, inPrefix bool
 	*nTrans++
 	b.apply(st, i, n, g, t)
 	if len(n.children) == 0 {
-		st.pc[i] = smt.Ite(g, b.c(0), st.pc[i])
+		st.pc[i] = smt.Ite(g, b.pcc(0), st.pc[i])
 		return
 	}
 	nv := inPrefix && !b.vis(n)
@@ -967,7 +1092,7 @@ func (b *bmc) run(st *bState, i int, n *bNode, g *smt.Term, t int, inPrefix bool
 		if b.fuse[c.to] || nv {
 			b.run(st, i, c.to, gc, t, nv, nTrans)
 		} else {
-			st.pc[i] = smt.Ite(gc, b.c(c.to.id), st.pc[i])
+			st.pc[i] = smt.Ite(gc, b.pcc(c.to.id), st.pc[i])
 		}
 	}
 }
@@ -983,7 +1108,7 @@ func (b *bmc) step(st0 *bState, sched *smt.Term, t int, nTrans *int) (*bState, *
 				continue
 			}
 			memo := map[*smt.Term]*smt.Term{}
-			at := smt.Eq(st0.pc[i], b.c(n.id))
+			at := smt.Eq(st0.pc[i], b.pcc(n.id))
 			vis := n
 			prefix := false
 			if !b.vis(n) {
@@ -1051,7 +1176,7 @@ func (b *bmc) raceAt(st *bState) *smt.Term {
 				continue
 			}
 			same := smt.Eq(b.subst(a.n.ev.Obj, st, memo), b.subst(c.n.ev.Obj, st, memo))
-			r = smt.Or(r, smt.And(smt.And(smt.Eq(st.pc[a.th], b.c(a.n.id)), smt.Eq(st.pc[c.th], b.c(c.n.id))), same))
+			r = smt.Or(r, smt.And(smt.And(smt.Eq(st.pc[a.th], b.pcc(a.n.id)), smt.Eq(st.pc[c.th], b.pcc(c.n.id))), same))
 		}
 	}
 	return r
